@@ -3,6 +3,7 @@ registrations of `runOps`, and the shape of the final `exit` step's outputs. -/
 import AsphaltModel.Runner
 import AsphaltProofs.Lemmas.Assoc
 import AsphaltProofs.Lemmas.Teardown
+import AsphaltProofs.Lemmas.Cancel
 
 namespace Asphalt
 namespace Rn
@@ -67,6 +68,15 @@ theorem rootOpen_runOps (c : RunCase) :
 
 /-! ### the final step -/
 
+/-- The callbacks of the runner model are synchronous and register nothing, so the stack runs as
+registered however the block is left (also when a crashing service task cancels it). -/
+theorem effStack_regs (be : BlockEnd) (regs : List (Nat × Bool)) :
+    effStack be (regs.map regCb).reverse = (regs.map regCb).reverse := by
+  apply Cn.effStack_of_fixed
+  intro c hc
+  obtain ⟨r, _, rfl⟩ := List.mem_map.1 (List.mem_reverse.1 hc)
+  exact Cn.underCancel_sync_leaf r.1 r.2 [] none
+
 /-- The trace of `runApp`: the teardown of the registered stack, `closed`, the outcome. -/
 theorem runApp_trace (c : RunCase) :
     ∃ x : Ctx, ∃ excs : List Exc,
@@ -81,7 +91,7 @@ theorem runApp_trace (c : RunCase) :
           (runTeardown 1 (blockEndOf c.ending) (c.regs.map regCb).reverse
             { x with state := .closing, tds := [] }).2.2] := by
     unfold runApp runOps
-    rw [run_snoc_getLast, step_exit _ 0 1 _ x hx hs, ht, hp, hc]
+    rw [run_snoc_getLast, step_exit _ 0 1 _ x hx hs, ht, hp, hc, effStack_regs]
     rfl
   exact ⟨_, _, h⟩
 
